@@ -18,7 +18,7 @@ add("C03", True, "E1-enumerator", "exhaustive enumeration of small graph shapes 
 add("C04", True, "E1-enumerator", "exhaustive enumeration of all connected multigraphs on <=4(5) labelled R^n vertices x fixed subsets x initial guesses x information, vs closed-form weighted least squares",
     "Every linear graph of the bounded family is optimised and compared with the closed-form WLS minimiser and its chi2; structured families up to 30 vertices are added.",
     "numpy lstsq/Cholesky trusted for the reference; exhaustive up to 4 (quick) / 5 (thorough) vertices, structured above", "DESIGN.md 4 C04")
-add("C05", False, "E1-enumerator", "exhaustive enumeration of a finite family (graph family x size x perturbation pattern x noise pattern x radius x tol) inside calibrated radii; oracle = chi2 monotone, independent Newton decrement, ground truth recovery",
+add("C05", True, "E1-enumerator", "exhaustive enumeration of a finite family (graph family x size x perturbation pattern x noise pattern x radius x tol) inside calibrated radii; oracle = chi2 monotone, independent Newton decrement, ground truth recovery",
     "Every combination of the stated finite family is optimised; the returned state must not increase chi2, must be stationary by an independently computed Newton decrement, and must reproduce ground truth when noise-free.",
     "claim limited to the calibrated neighbourhood and the listed families; reference error model + 5-point Jacobians trusted", "DESIGN.md 4 C05")
 add("C06", True, "E1-enumerator + fault enumeration", "exhaustive enumeration of graph shapes x fixed subsets (incl. isolated/all/landmark fixed) x deviation-bounded solver faults (0,1,2 injected answers) x iteration counts",
